@@ -558,8 +558,11 @@ func TestC28_Fixed(t *testing.T) {
 			if !ev.Thorough() && s.Kind == "repo" {
 				// quick tier: one flag set per repo module, rotating with the module index and
 				// the seed (the thorough tier runs the full matrix)
+				if (si+int(globalSeed()%3))%3 != 0 {
+					continue // and only a seed-dependent third of the repo modules
+				}
 				usable := len(matrix)
-				pick := (si + int(ev.Seed()%uint64(usable))) % usable
+				pick := (si/3 + int(globalSeed()%uint64(usable))) % usable
 				if matrix[pick].Compress && !s.OC {
 					pick = (pick + 3) % usable
 					if matrix[pick].Compress {
@@ -596,7 +599,7 @@ func TestC28_Fixed(t *testing.T) {
 			}
 		}
 	}
-	if okBySrc["corpus"]*ev.Shards() < 8 || okBySrc["repo"]*ev.Shards() < 30 {
+	if okBySrc["corpus"]*ev.Shards() < 8 || okBySrc["repo"]*ev.Shards() < ev.Scale(10, 60) {
 		t.Errorf("INCONCLUSIVE: fixed schemas barely covered (ok cases by kind: %v)", okBySrc)
 	}
 }
